@@ -101,6 +101,7 @@ func NewGoMetricsMetricRegistry(
 func (r *MetricRegistry) Start() {
 	r.mu.Lock()
 	if !r.started {
+		r.started = true
 		r.wg.Add(1)
 		go func() {
 			defer r.wg.Done()
@@ -138,10 +139,11 @@ func (r *MetricRegistry) Stop() {
 		r.mu.Unlock()
 		return
 	}
-	r.stopper <- true
-	r.wg.Wait()
 	r.started = false
+	r.stopper <- true
 	r.mu.Unlock()
+	// wait outside the mutex: the poller locks it on every tick
+	r.wg.Wait()
 }
 
 // RegisterDistribution will register a distribution sample to this registry
